@@ -220,6 +220,7 @@ EXC = {
     ('signature::Signature::generate', 'panic'): (1, 'debug_assert_eq!(blocks.len(), ceil(len/block_size)) on its own output'),
     ('signature::Signature::generate', 'assert:Overflow'): (1, '64 * 1024 constant'),
     ('hash::StrongHash::ct_eq', 'panic'): (1, 'debug_assert on its own result'),
+    ('serve::handle_put', 'assert:Overflow'): (1, 'streamed += n: the reads go through take(len), so the sum is <= len <= u64::MAX (C10.R3 decides reader = take(len))'),
 }
 
 
